@@ -618,9 +618,10 @@ func (r *UnitRun) zero(st *State, t types.Type) Val {
 	case *types.Map:
 		s := w.sortOf(tu)
 		es := w.sortOf(u.Elem())
-		has := r.fresh("nohas", "(Array Int Bool)")
-		st.assume(fmt.Sprintf("(forall ((k!z Int)) (not (select %s k!z)))", has))
-		return Val{K: KRef, T: sx("mk"+s, has, r.fresh("noget", fmt.Sprintf("(Array Int %s)", es)), "true"), Sort: s, Go: t}
+		ks := w.sortOf(u.Key())
+		has := r.fresh("nohas", fmt.Sprintf("(Array %s Bool)", ks))
+		st.assume(fmt.Sprintf("(forall ((k!z %s)) (not (select %s k!z)))", ks, has))
+		return Val{K: KRef, T: sx("mk"+s, has, r.fresh("noget", fmt.Sprintf("(Array %s %s)", ks, es)), "true"), Sort: s, Go: t}
 	}
 	panic(toolLimit("zero: unsupported type " + t.String()))
 }
